@@ -29,7 +29,7 @@ def cases(tier, seed):
     rng = random.Random(seed * 13 + 1)
     cs = []
     n_srv = 30 if tier == 'quick' else 500
-    profiles = ['db', 'mixed', 'special', 'dups', 'tiny', 'big']
+    profiles = ['db', 'mixed', 'special', 'dups', 'tiny', 'big', 'hugeutf8']
     for i in range(n_srv):
         prof = profiles[i % len(profiles)]
         s = rng.randrange(1 << 30)
@@ -93,6 +93,16 @@ def _build_kex(c):
         return gen.random_kex(rng, names, {'db': 4, 'unknown': 1}, (1, 1), allow_empty=True)
     if prof == 'big':
         return gen.random_kex(rng, names, {'db': 1}, (25, 60))
+    if prof == 'hugeutf8':
+        # name-lists of 8-20 kB made of long names full of two- and three-byte characters, at both parities: whatever block size a reader uses, some character straddles a block boundary
+        k = gen.random_kex(rng, names, {'db': 1}, (1, 4))
+        def big(pre, ch, n, suf):
+            return pre + ch * n + suf
+        for cat in ('kex', 'key', 'enc_sc', 'mac_sc'):
+            extra = [big('x', '\u00e9', rng.choice([2100, 3000]), '@example.com'), big('xy', '\u00e9', rng.choice([2100, 3000]), '@example.org'), big('z', '\u4e2d', rng.choice([1400, 2800]), '-v1'), big('zz', '\u4e2d', 1400, ''), big('zzz', '\u4e2d', 1400, '')]
+            k[cat] = k[cat][:1] + rng.sample(extra, 3) + k[cat][1:]
+        k['enc_cs'], k['mac_cs'] = k['enc_sc'], k['mac_sc']
+        return k
     raise ValueError(prof)
 
 
